@@ -726,10 +726,20 @@ def truth_before_unrec(before, rec_before):
     return [(key, shs) for key, shs in before.items() if key not in rec_before]
 
 
+
+def replay_case(replay):
+    """the case of a replay file: a violation's case, or the case of the first recorded disagreement"""
+    if replay.get("case"):
+        return replay["case"]
+    for d in replay.get("correspondence_disagreements", []) + replay.get("disagreements", []):
+        if d.get("case"):
+            return d["case"]
+    raise KeyError("replay file holds no case")
+
 def run(ctx):
     cases, scs = [], []
     if ctx.replay:
-        c = ctx.replay["case"]
+        c = replay_case(ctx.replay)
         if c.get("kind") in ("check", "repair", "getver"):
             cases = [(c11.parse_replay_vers(c["vers"]), [tuple(o) for o in c["ops"]])]
         elif c["sc"].get("family") == "offline":
